@@ -435,11 +435,10 @@ impl Options {
                                 Some(option_arg) => {
                                     let mut result = vec![option_arg.get_simple_representation()];
                                     if matches!(option_arg, OptionArg::WithParam { .. }) {
-                                        let split_char = match arg.contains('=') {
-                                            true => '=',
-                                            false => arg_char,
-                                        };
-                                        let param = arg.split_once(split_char).unwrap().1;
+                                        // the value is what follows the option letter, less one
+                                        // `=` directly after it: a value may itself contain `=`
+                                        let rest = arg.split_once(arg_char).unwrap().1;
+                                        let param = rest.strip_prefix('=').unwrap_or(rest);
                                         if !param.is_empty() {
                                             result.push(param.to_owned());
                                         }
